@@ -473,6 +473,11 @@ def _remap(x, L, B):
         _remap(y, L, B)
 
 
+def _nolt(gargs):
+    """Generic arguments without lifetimes (erased in MIR call sites or printed as regions)."""
+    return [a for a in gargs if not (isinstance(a, dict) and (a.get("k") in ("lifetime", "region") or str(a.get("s", "")).startswith("'")))]
+
+
 def _has_loop(body):
     succ = {}
     for i, blk in enumerate(body["blocks"]):
@@ -621,7 +626,8 @@ def _inline_call(C, bi, H):
     hb = copy.deepcopy(H["blocks"])
     cal = call["callee"]
     gargs = (cal.get("resolved") or cal).get("args", [])
-    sub = {g["index"]: a for g, a in zip(H.get("generics", []), gargs) if isinstance(a, dict) and a.get("k") not in (None, "lifetime", "const")}
+    sub = {g["index"]: a for g, a in zip([g for g in H.get("generics", []) if g.get("kind") != "Lifetime"], _nolt(gargs))
+           if isinstance(a, dict) and a.get("k") not in (None, "lifetime", "const")}
     if sub:
         hl = _subst(hl, sub)
         hb = _subst(hb, sub)
@@ -698,7 +704,7 @@ def inline_new_helpers(j):
                     okk = False
                 cal = caller["blocks"][bi]["term"]["callee"]
                 gargs = (cal.get("resolved") or cal).get("args", [])
-                if len(gargs) != len(h.get("generics", [])):
+                if len(_nolt(gargs)) != len([g for g in h.get("generics", []) if g.get("kind") != "Lifetime"]):
                     okk = False
             if not okk:
                 continue
